@@ -57,6 +57,7 @@ type Plan struct {
 	Faults     []FaultSpec `json:"faults"`
 	Free       bool        `json:"free,omitempty"`        // free-running mode (library starts goroutines / blocks on channels): schedule not owned
 	ColdFirst  bool        `json:"cold_first,omitempty"`  // simulate before any sequential baseline (lazy initialisation, memo tables and pools are met cold)
+	PreWarm    *OpSpec     `json:"pre_warm,omitempty"`    // executed (sequentially, result discarded) before anything else of the run: a process that has already made many calls
 	Prelude    []uint64    `json:"prelude,omitempty"`     // run indices executed (and discarded) before this plan on replay: the runs that preceded it in its worker process
 	ReplayMode bool        `json:"replay_mode,omitempty"` // true => execute exactly the segments of Schedule (then id order)
 	Schedule   []Seg       `json:"schedule,omitempty"`
@@ -108,24 +109,27 @@ const simOpYieldCap = 4 * maxBaselineYields
 // ---- planning ----
 
 type Tier struct {
-	HotRounds  int            // extra focused rounds for entries that executed a hot site in the probe step
-	Many       map[string]int // rounds of many-task (9-24 tasks) focused runs per family
-	PairRounds int            // rounds over all pairs of "sec" entries
-	Extra      map[string]int // additional focused rounds for small families that the property names explicitly
-	Rounds     int            // focused private rounds over the whole catalogue
-	Reps       int            // repetitions of each catalogue entry per task in the focused private runs
-	Name       string
-	MaxTasks   int
-	Faults     bool
-	ChunkSize  int
-	NShared    int
-	NRecycle   int
-	NSharedIE  int // shared-read runs on synthesised values of every IE type (see SharedIEBase)
+	GroupRounds int            // focused runs per package-level variable that two or more catalogue entries reach: those entries together in one run
+	Warm        map[string]int // rounds of long-lived-caller runs (OpSpec.Warm) per family; "*" = every entry, "hot" = entries that reach a hot site
+	WarmMax     int            // most discarded repetitions per task in such a run
+	HotRounds   int            // extra focused rounds for entries that executed a hot site in the probe step
+	Many        map[string]int // rounds of many-task (9-24 tasks) focused runs per family
+	PairRounds  int            // rounds over all pairs of "sec" entries
+	Extra       map[string]int // additional focused rounds for small families that the property names explicitly
+	Rounds      int            // focused private rounds over the whole catalogue
+	Reps        int            // repetitions of each catalogue entry per task in the focused private runs
+	Name        string
+	MaxTasks    int
+	Faults      bool
+	ChunkSize   int
+	NShared     int
+	NRecycle    int
+	NSharedIE   int // shared-read runs on synthesised values of every IE type (see SharedIEBase)
 }
 
 var Tiers = map[string]Tier{
-	"quick":    {Name: "quick", HotRounds: 6, Many: map[string]int{"sec": 4, "roundtrip": 1, "hist": 1}, PairRounds: 1, Extra: map[string]int{"sec": 12, "roundtrip": 8, "hist": 4, "fn": 4, "chain": 2}, Rounds: 1, Reps: 6, MaxTasks: 8, Faults: true, ChunkSize: 1, NShared: 24, NRecycle: 24},
-	"thorough": {Name: "thorough", HotRounds: 24, Many: map[string]int{"sec": 12, "roundtrip": 4, "hist": 2, "fn": 1, "accessors": 1}, PairRounds: 6, Extra: map[string]int{"sec": 120, "roundtrip": 40, "hist": 20, "fn": 8, "accessors": 4, "chain": 8}, Rounds: 4, Reps: 8, MaxTasks: 64, Faults: true, ChunkSize: 1, NShared: 96, NRecycle: 96},
+	"quick":    {Name: "quick", GroupRounds: 8, Warm: map[string]int{"sec": 2, "fn": 1, "encode": 1, "decode": 1, "roundtrip": 1, "hist": 1, "accessors": 1, "hot": 1}, WarmMax: 4000, HotRounds: 6, Many: map[string]int{"sec": 4, "roundtrip": 1, "hist": 1}, PairRounds: 1, Extra: map[string]int{"sec": 12, "roundtrip": 8, "hist": 4, "fn": 4, "chain": 2}, Rounds: 1, Reps: 6, MaxTasks: 8, Faults: true, ChunkSize: 1, NShared: 24, NRecycle: 24},
+	"thorough": {Name: "thorough", GroupRounds: 64, Warm: map[string]int{"*": 2, "sec": 8, "fn": 2, "roundtrip": 2, "hot": 4}, WarmMax: 70000, HotRounds: 24, Many: map[string]int{"sec": 12, "roundtrip": 4, "hist": 2, "fn": 1, "accessors": 1}, PairRounds: 6, Extra: map[string]int{"sec": 120, "roundtrip": 40, "hist": 20, "fn": 8, "accessors": 4, "chain": 8}, Rounds: 4, Reps: 8, MaxTasks: 64, Faults: true, ChunkSize: 1, NShared: 96, NRecycle: 96},
 }
 
 // NumFocused is the number of focused runs of a tier (they come first).
@@ -224,6 +228,59 @@ const pairBase = 1 << 24
 // Encoded as manyBase + entry index.
 const manyBase = 1 << 25
 
+// long-lived-caller runs: one entry, 2-4 tasks, each of which calls it hundreds to
+// thousands of times (results discarded, see OpSpec.Warm) before the recorded calls.
+// Encoded as warmBase + entry index.
+const warmBase = 1 << 26
+
+// group runs: two to four DIFFERENT entries that reached the same package-level
+// variable in the probe step, together in one focused run - hidden state that connects
+// two kinds of calls (a decoder and a conversion helper, a setter and an encoder) only
+// misbehaves when those two overlap, and random mixes of 3 000 entries almost never
+// contain a given pair. Encoded as groupBase + variable index * 1024 + round.
+const groupBase = 1 << 27
+
+var varEntries map[int][]int
+
+func entriesOfVar(v int) []int {
+	if varEntries == nil {
+		varEntries = map[int][]int{}
+		for i, vs := range Cat.HotVars {
+			for _, x := range vs {
+				varEntries[x] = append(varEntries[x], i)
+			}
+		}
+	}
+	return varEntries[v]
+}
+
+func groupChoice(v, round int) []OpSpec {
+	es := entriesOfVar(v)
+	name := ""
+	if v < len(HotVarNames) {
+		name = HotVarNames[v]
+	}
+	r := NewRng(Mix(Hash64(name), uint64(round)))
+	k := 2 + r.Intn(3)
+	if len(es) <= 4 {
+		k = len(es)
+	}
+	var out []OpSpec
+	used := map[int]bool{}
+	names := map[string]bool{}
+	for tries := 0; len(out) < k && tries < 64; tries++ {
+		i := es[r.Intn(len(es))]
+		// (different kinds of calls: a second seed of the same function is what the
+		// per-entry focused runs already do)
+		if used[i] || (names[Cat.Entries[i].Name] && tries < 32) {
+			continue
+		}
+		used[i], names[Cat.Entries[i].Name] = true, true
+		out = append(out, Cat.Entries[i])
+	}
+	return out
+}
+
 var focusCache = map[string][]int{}
 
 // focusList: catalogue entry index of every focused private run, in order:
@@ -278,11 +335,34 @@ func focusList(t Tier) []int {
 			}
 		}
 	}
+	for v := range HotVarNames {
+		if len(entriesOfVar(v)) < 2 || v >= 1<<16 {
+			continue
+		}
+		for r := 0; r < t.GroupRounds; r++ {
+			l = append(l, groupBase+v*1024+r)
+		}
+	}
+	for _, fam := range append([]string{"*", "hot"}, PrivateFams...) {
+		for r := 0; r < t.Warm[fam]; r++ {
+			for i := range Cat.Entries {
+				if fam == "*" || Cat.Entries[i].Fam == fam || (fam == "hot" && i < len(Cat.Hot) && Cat.Hot[i] && t.Warm[Cat.Entries[i].Fam] == 0) {
+					l = append(l, warmBase+i)
+				}
+			}
+		}
+	}
 	focusCache[t.Name] = l
 	return l
 }
 
 func focusEntries(code int) []OpSpec {
+	if code >= groupBase {
+		return groupChoice((code-groupBase)/1024, (code-groupBase)%1024)
+	}
+	if code >= warmBase {
+		return Cat.Entries[code-warmBase : code-warmBase+1]
+	}
 	if code >= manyBase {
 		return Cat.Entries[code-manyBase : code-manyBase+1]
 	}
@@ -344,7 +424,12 @@ func PlanRun(seed, index uint64, tierName string) *Plan {
 		chunk := focusEntries(fl[index])
 		sd := newSeedDraw(r, []int{45, 70, 85}[r.Intn(3)])
 		ntask := 2 + r.Intn(3)
-		many := fl[index] >= manyBase
+		group := fl[index] >= groupBase
+		warm := fl[index] >= warmBase && !group
+		many := fl[index] >= manyBase && !warm && !group
+		if group && r.Chance(40) {
+			ntask = 4 + r.Intn(5)
+		}
 		if many {
 			ntask = 9 + r.Intn(24)
 			if r.Chance(35) {
@@ -382,7 +467,34 @@ func PlanRun(seed, index uint64, tierName string) *Plan {
 		// cheap operations are repeated more often: about 1500 yields per task, at
 		// least Reps and at most 10 x Reps calls (costs come from the probe step)
 		reps := t.Reps
-		if many {
+		warmN := 0
+		if warm {
+			// about 600 000 yields of discarded repetitions per task (well below the yield
+			// budget of one operation), at most WarmMax calls
+			cost := 40
+			if i := fl[index] - warmBase; i < len(Cat.Cost) && Cat.Cost[i] > 0 {
+				cost = Cat.Cost[i]
+			}
+			warmN = 600000 / (cost + 1)
+			if warmN > t.WarmMax {
+				warmN = t.WarmMax
+			}
+			if i := fl[index] - warmBase; i < len(Cat.Size) && Cat.Size[i] > 0 && warmN > 6000000/Cat.Size[i] {
+				warmN = 6000000/Cat.Size[i] + 1 // (building the repetitions is the harness's cost)
+			}
+			if r.Bool() {
+				warmN = warmN/4 + r.Intn(warmN/2+1) // not always the same number of calls
+			}
+			if r.Chance(30) {
+				// the warm-up happens before the tasks exist (one caller started the process,
+				// the others join a library that is already warm)
+				p.PreWarm = &OpSpec{Fam: chunk[0].Fam, Name: chunk[0].Name, Seed: r.U64(), Warm: warmN * ntask}
+				if p.PreWarm.Warm > 2*t.WarmMax {
+					p.PreWarm.Warm = 2 * t.WarmMax
+				}
+				warmN = 0
+			}
+		} else if many {
 			reps = 2
 			if pile {
 				pileCost = 40
@@ -417,7 +529,7 @@ func PlanRun(seed, index uint64, tierName string) *Plan {
 		} else if Cat.Cost != nil {
 			reps = 4 * t.Reps
 		}
-		if code := fl[index] % manyBase; code < pairBase && code < len(Cat.Size) && Cat.Size[code] > 0 {
+		if code := fl[index] % manyBase; !warm && !group && code < pairBase && code < len(Cat.Size) && Cat.Size[code] > 0 {
 			// the harness's own cost (building and dumping a call) bounds the repetitions too:
 			// about 1.5 MB of canonical dump per task
 			if n := 1500000 / Cat.Size[code]; n < reps {
@@ -435,7 +547,14 @@ func PlanRun(seed, index uint64, tierName string) *Plan {
 					if task == 2 {
 						e = chunk[len(chunk)-1-i]
 					}
-					ops = append(ops, sd.apply(e))
+					if group {
+						e = chunk[(i+task)%len(chunk)] // every task starts with a different kind of call
+					}
+					e = sd.apply(e)
+					if rep == 0 && i == 0 {
+						e.Warm = warmN
+					}
+					ops = append(ops, e)
 				}
 			}
 			p.Tasks = append(p.Tasks, ops)
@@ -700,7 +819,7 @@ func safeDump(vals []interface{}) (s string) {
 // of the run in buffer-recycle mode, see below).
 func baseline(p *Plan, slow map[[2]int]bool, reverse bool) [][]outcome {
 	env := NewEnv(p.Mode, p.RunSeed, len(p.Tasks), p.Pick)
-	insts := buildAll(p, env, slow)
+	insts := buildAll(p, env, slow, true)
 	out := make([][]outcome, len(p.Tasks))
 	for t := range p.Tasks {
 		out[t] = make([]outcome, len(p.Tasks[t]))
@@ -739,12 +858,17 @@ func baseline(p *Plan, slow map[[2]int]bool, reverse bool) [][]outcome {
 	return out
 }
 
-func buildAll(p *Plan, env *Env, slow map[[2]int]bool) [][]*Inst {
+func buildAll(p *Plan, env *Env, slow map[[2]int]bool, sequential bool) [][]*Inst {
 	insts := make([][]*Inst, len(p.Tasks))
 	for t := range p.Tasks {
 		for o, spec := range p.Tasks[t] {
 			if slow[[2]int{t, o}] {
 				spec = OpSpec{Fam: "noop", Name: spec.Fam + "/" + spec.Name}
+			}
+			if sequential {
+				// the sequential reference of a long-lived caller's recorded call is that call
+				// alone: what it returns must not depend on how many calls came before it
+				spec.Warm = 0
 			}
 			insts[t] = append(insts[t], Cat.Build(spec, env, t))
 		}
@@ -774,6 +898,17 @@ func ExecRun(p *Plan) *Record {
 		// no yield budget per task in free-running mode: the baselines must screen out
 		// operations that do not terminate before they are run in parallel
 		p.ColdFirst = false
+	}
+	if p.PreWarm != nil {
+		func() {
+			vsimrt.SetCounting(true)
+			defer func() {
+				recover()
+				vsimrt.ArmLimit(0)
+				vsimrt.SetCounting(false)
+			}()
+			Cat.Build(*p.PreWarm, NewEnv(p.Mode, p.RunSeed, len(p.Tasks), p.Pick), 0).Do()
+		}()
 	}
 	if p.ColdFirst {
 		// Simulation BEFORE any sequential execution: whatever the library builds
@@ -1064,7 +1199,7 @@ func (x *execution) simulate(totals []int64, total int64) bool {
 	}
 
 	env := NewEnv(p.Mode, p.RunSeed, len(p.Tasks), p.Pick)
-	insts := buildAll(p, env, x.slow)
+	insts := buildAll(p, env, x.slow, false)
 	bodies := make([]func(), len(insts))
 	for t := range insts {
 		mine := insts[t]
@@ -1177,6 +1312,7 @@ func ProbeCosts() {
 	c.Cost = make([]int, len(c.Entries))
 	c.Hot = make([]bool, len(c.Entries))
 	c.Size = make([]int, len(c.Entries))
+	c.HotVars = make([][]int, len(c.Entries))
 	vsimrt.SetCounting(true)
 	defer vsimrt.SetCounting(false)
 	for i, e := range c.Entries {
@@ -1191,6 +1327,18 @@ func ProbeCosts() {
 		}
 		c.Cost[i] = int(total/6) + 1
 		c.Hot[i] = vsimrt.BaseHit(siteFlags, vsimrt.FlagHot)
+		if c.Hot[i] {
+			seen := map[int32]bool{}
+			for _, site := range vsimrt.BaseSites() {
+				for _, v := range SiteVars[int32(site)] {
+					if !seen[v] {
+						seen[v] = true
+						c.HotVars[i] = append(c.HotVars[i], int(v))
+					}
+				}
+			}
+			sort.Ints(c.HotVars[i])
+		}
 	}
 }
 
